@@ -66,6 +66,7 @@ def run_one(case, tally):
         h.start()
         tr = h.trace
         h.wait_event(lambda e: e[2] == "app" and e[3] == "send.", 3.0)
+        h.wait_ready()
         fbs = []
         for i in range(count):
             s = h.connect()
